@@ -9,6 +9,7 @@ import (
 	"fmt"
 	"net"
 	"sync"
+	"syscall"
 	"testing"
 	"time"
 
@@ -747,4 +748,374 @@ func TestVerifC02Random(t *testing.T) {
 		c.SrvPol = rapid.SampledFrom([]int{0, 1, 2, 3, 4, 5}).Draw(t, "srvPolicy")
 		return c
 	}})
+}
+
+// ---------------------------------------------------------------------------------------------------------------------
+// Sequences of handshakes on one server with a FAULTED attempt followed by retries.
+//
+// The statement's second sentence quantifies over every pair of parties that complete, whatever happened on the server
+// before: a client whose handshake failed because a datagram could not be sent (the socket write returned an error) or
+// was lost retries with a fresh handshake - from the same address (the same host, or the same NAT mapping) while the
+// server may still track the first attempt, after the server's handshake timeout, or from another address. The attempts
+// of a case run one after the other on a faithful network (nothing is altered, replayed or delayed), each to quiescence,
+// so during attempt i the only handshake datagrams that reach the server are the ones of handshake i: a session the
+// server completes (offers to Accept) during attempt i is its completion of handshake i (the first sentence of the
+// statement: the datagram of a different handshake never completes a handshake). Hence, if the client of attempt i
+// reports success as well, both parties completed and must hold the same identifier and keys.
+
+type c02Fault struct {
+	Side int `json:"side"`           // 0 no fault, 1 the server's, 2 the client's K-th handshake datagram of this attempt
+	K    int `json:"k,omitempty"`    // 0-based index among the handshake datagrams that party writes in this attempt
+	Kind int `json:"kind,omitempty"` // 0 the socket write fails with an error (nothing is sent), 1 the write succeeds and the datagram is lost
+}
+
+type c02Attempt struct {
+	Fault     c02Fault `json:"fault"`
+	Addr      int      `json:"addr,omitempty"`          // 0 the first client address, 1 another address
+	Second    bool     `json:"otherIdentity,omitempty"` // the attempt uses the second client identity
+	DelayMs   int      `json:"delayMs,omitempty"`       // virtual pause before the attempt starts (server HandshakeTimeout is 5 s, client HSTimeout 2 s)
+}
+
+type c02RetryCase struct {
+	Hidden   bool         `json:"hidden"`
+	Attempts []c02Attempt `json:"attempts"`
+}
+
+type c02Sess struct {
+	id       SessionID
+	c2s, s2c [KeyLen]byte
+}
+
+type c02AttemptOutcome struct {
+	cliErr   error
+	cliDone  bool
+	client   c02Sess
+	accepted []c02Sess // sessions the server offered to Accept during the attempt
+	fired    bool      // the fault of the attempt was applied
+	exchange string    // both completed with equal id and keys, but data did not flow: description
+	exchanged bool
+}
+
+var c02ErrInjected = &net.OpError{Op: "write", Net: "udp", Err: syscall.ENOBUFS}
+
+func c02SessOf(ss *SessionState) c02Sess {
+	ss.m.Lock()
+	defer ss.m.Unlock()
+	return c02Sess{ss.sessionID, ss.clientToServerKey, ss.serverToClientKey}
+}
+
+// c02Exchange: one message each way between a client and the server-side handle of the session (black box).
+func c02Exchange(cli *Client, h *Handle, serial, i int) string {
+	buf := make([]byte, 4096)
+	m1 := append([]byte("C02>"), vlib.Fill(uint64(serial)*16+uint64(i), 48)...)
+	if err := cli.WriteMsg(m1); err != nil {
+		return fmt.Sprintf("client-to-server: WriteMsg on the completed client returns %v", err)
+	}
+	h.SetReadDeadline(time.Now().Add(2 * time.Second))
+	if n, err := h.ReadMsg(buf); err != nil || !bytes.Equal(buf[:n], m1) {
+		return fmt.Sprintf("client-to-server: the server-side handle read %d bytes, err %v, instead of the %d bytes the client wrote", n, err, len(m1))
+	}
+	m2 := append([]byte("C02<"), vlib.Fill(uint64(serial)*16+uint64(i)+7, 40)...)
+	if err := h.WriteMsg(m2); err != nil {
+		return fmt.Sprintf("server-to-client: WriteMsg on the accepted handle returns %v", err)
+	}
+	cli.SetReadDeadline(time.Now().Add(2 * time.Second))
+	if n, err := cli.ReadMsg(buf); err != nil || !bytes.Equal(buf[:n], m2) {
+		return fmt.Sprintf("server-to-client: the client read %d bytes, err %v, instead of the %d bytes the server wrote", n, err, len(m2))
+	}
+	return ""
+}
+
+func c02RetryScenario(c c02RetryCase, serial int) (outs []c02AttemptOutcome) {
+	w := vGetWorld()
+	env := vStartServer(w.ServerConfig(c.Hidden))
+	defer env.Stop()
+	var mu sync.Mutex
+	var cur *net.UDPAddr
+	var f c02Fault
+	var cnt [3]int
+	var drop [3]bool
+	fired := false
+	gate := func(side int, sock *simnet.Sock) simnet.WriteGate {
+		return func(b []byte, dst *net.UDPAddr, _ <-chan struct{}) {
+			mu.Lock()
+			defer mu.Unlock()
+			sock.FailWrites(nil)
+			if !vIsHandshake(b) || f.Side != side || (side == 1 && !simnetEq(dst, cur)) {
+				return
+			}
+			k := cnt[side]
+			cnt[side]++
+			if k != f.K {
+				return
+			}
+			fired = true
+			if f.Kind == 0 {
+				sock.FailWrites(c02ErrInjected) // this write fails; the next write clears it again
+			} else {
+				drop[side] = true
+			}
+		}
+	}
+	env.Net.Filter = func(d simnet.Datagram) []simnet.Datagram {
+		mu.Lock()
+		defer mu.Unlock()
+		side := 2
+		if simnetEq(d.Src, vSrvAddr) {
+			side = 1
+		}
+		if drop[side] && vIsHandshake(d.Data) {
+			drop[side] = false
+			return nil
+		}
+		return []simnet.Datagram{d}
+	}
+	env.SrvSock.SetWriteGate(gate(1, env.SrvSock))
+	for i, a := range c.Attempts {
+		if a.DelayMs > 0 {
+			time.Sleep(time.Duration(a.DelayMs) * time.Millisecond)
+		}
+		addr := vCliAddr
+		if a.Addr != 0 {
+			addr = vCli2Addr
+		}
+		mu.Lock()
+		cur, f, cnt, drop, fired = addr, a.Fault, [3]int{}, [3]bool{}, false
+		mu.Unlock()
+		cli, sock := env.NewClient(addr, w.ClientConfig(c.Hidden, a.Second))
+		sock.SetWriteGate(gate(2, sock))
+		var o c02AttemptOutcome
+		hsDone := make(chan error, 1)
+		go func() { hsDone <- cli.Handshake() }()
+		select {
+		case o.cliErr = <-hsDone:
+		case <-time.After(20 * time.Second):
+			cli.Close()
+			if o.cliErr = <-hsDone; o.cliErr == nil {
+				o.cliErr = fmt.Errorf("handshake did not return within 20 virtual seconds")
+			}
+		}
+		o.cliDone = o.cliErr == nil
+		// quiescence: the server has processed everything this attempt sent
+		time.Sleep(20 * time.Millisecond)
+		var handles []*Handle
+		for {
+			h, err := env.Srv.AcceptTimeout(time.Millisecond)
+			if err != nil || h == nil {
+				break
+			}
+			handles = append(handles, h)
+			o.accepted = append(o.accepted, c02SessOf(h.ss))
+		}
+		mu.Lock()
+		o.fired = fired
+		f = c02Fault{}
+		mu.Unlock()
+		if o.cliDone {
+			o.client = c02SessOf(cli.ss)
+			if len(handles) == 1 && o.accepted[0] == o.client {
+				o.exchange = c02Exchange(cli, handles[0], serial, i)
+				o.exchanged = true
+			}
+		}
+		outs = append(outs, o)
+		for _, h := range handles {
+			h.Close()
+		}
+		cli.Close()
+		sock.Close()
+	}
+	return outs
+}
+
+func c02FaultName(hidden bool, f c02Fault) string {
+	if f.Side == 0 {
+		return "no-fault"
+	}
+	idx := 2*f.K + 1 // the server writes the odd-numbered datagrams
+	if f.Side == 2 {
+		idx = 2 * f.K
+	}
+	name := "?"
+	if n := c02MsgNames[hidden]; idx < len(n) {
+		name = n[idx]
+	}
+	return name + map[int]string{0: ":write-error", 1: ":lost"}[f.Kind]
+}
+
+func c02RetryRun(t *testing.T) func(c c02RetryCase, v *vlib.Verdict) {
+	return func(c c02RetryCase, v *vlib.Verdict) {
+		c02Serial++
+		serial := c02Serial
+		var outs []c02AttemptOutcome
+		res := vlib.Bubble(t, 60*time.Second, func() { outs = c02RetryScenario(c, serial) })
+		if res.Hung {
+			v.Inconclusive = "bubble hung in real time (C02 retry)"
+			return
+		}
+		if res.Panic != "" {
+			if res.Leak() || res.Deadlock() {
+				v.Failf("C02:goroutines-left:"+fmt.Sprint(vlib.BlockedHopFrames(res.Stacks)), "after closing clients and server goroutines remain: %v", vlib.BlockedHopFrames(res.Stacks))
+			} else {
+				v.Failf(vlib.PanicSig(res.Panic, res.Stacks), "panic: %s", res.Panic)
+			}
+			return
+		}
+		mode := map[bool]string{false: "discoverable", true: "hidden"}[c.Hidden]
+		faulted := false // an earlier attempt of the sequence was faulted
+		for i, o := range outs {
+			a := c.Attempts[i]
+			fn := c02FaultName(c.Hidden, a.Fault)
+			if a.Fault.Side != 0 && !o.fired {
+				v.Label("retry:fault-not-reached:" + mode + ":" + fn)
+			}
+			ctx := ""
+			if faulted {
+				ctx = ":after-faulted-attempt"
+			}
+			what := fmt.Sprintf("%s handshake #%d of the sequence (%s, address %d, %d ms after the previous attempt ended)", mode, i, fn, a.Addr, a.DelayMs)
+			if a.Fault.Side == 0 || !o.fired {
+				who := "neither"
+				switch {
+				case o.cliDone && len(o.accepted) > 0:
+					who = "both"
+				case o.cliDone:
+					who = "client-only"
+				case len(o.accepted) > 0:
+					who = "server-only"
+				}
+				when := "first"
+				if faulted {
+					when = fmt.Sprintf("after-fault:addr=%d:delay=%dms", a.Addr, a.DelayMs)
+				}
+				v.Label("retry:unfaulted-attempt:" + mode + ":" + when + ":completed-by-" + who)
+				if !faulted && i == 0 && who != "both" {
+					v.Failf("C02:honest-handshake-fails", "unaltered %s: client err %v, sessions accepted %d", what, o.cliErr, len(o.accepted))
+					return
+				}
+			}
+			if o.cliDone {
+				for _, s := range o.accepted {
+					// both parties completed during this attempt
+					switch {
+					case s.id != o.client.id:
+						v.Failf("C02:session-id-differs"+ctx, "%s: the client completed with session id %x, the server completed (offered to Accept) session %x during the same attempt", what, o.client.id, s.id)
+					case s.c2s != o.client.c2s || s.s2c != o.client.s2c:
+						v.Failf("C02:keys-differ"+ctx, "%s: client and server completed session %x with different directional keys", what, s.id)
+					}
+					if !v.OK() {
+						return
+					}
+				}
+				if o.client.c2s == o.client.s2c {
+					v.Failf("C02:directions-share-key"+ctx, "%s: client-to-server and server-to-client keys of the client are equal", what)
+					return
+				}
+			}
+			// every completed session is an independent session: fresh, non-zero, direction-separated keys
+			seen := map[c02Sess]bool{}
+			note := func(tag string, s c02Sess) {
+				if seen[s] {
+					return
+				}
+				seen[s] = true
+				if s.c2s == s.s2c {
+					v.Failf("C02:directions-share-key"+ctx, "%s: %s holds equal keys for both directions", what, tag)
+					return
+				}
+				c02NoteKeys(v, fmt.Sprintf("case%d-attempt%d-%s", serial, i, tag), s.c2s, s.s2c)
+			}
+			if o.cliDone {
+				note("client", o.client)
+			}
+			for _, s := range o.accepted {
+				if v.OK() {
+					note("server", s)
+				}
+			}
+			if !v.OK() {
+				return
+			}
+			if o.exchanged {
+				if o.exchange != "" {
+					dir := "client-to-server"
+					if len(o.exchange) > 6 && o.exchange[:6] == "server" {
+						dir = "server-to-client"
+					}
+					v.Failf("C02:completed-pair-cannot-exchange-data:"+dir+ctx, "%s: both parties completed with equal session id and keys, but %s", what, o.exchange)
+					return
+				}
+				v.Label("retry:completed-pair-exchanged-data")
+			}
+			if a.Fault.Side != 0 && o.fired {
+				faulted = true
+				v.Label("retry:fault:" + mode + ":" + fn)
+			}
+		}
+		v.NonTrivial = faulted && len(outs) > 1
+	}
+}
+
+// c02Faults: every single-datagram send fault of one handshake attempt.
+func c02Faults(hidden bool) []c02Fault {
+	var fs []c02Fault
+	for idx := range c02MsgNames[hidden] {
+		side := 2 - idx%2 // even datagrams are written by the client (2), odd ones by the server (1)
+		for kind := 0; kind < 2; kind++ {
+			fs = append(fs, c02Fault{Side: side, K: idx / 2, Kind: kind})
+		}
+	}
+	return fs
+}
+
+// TestVerifC02Retry enumerates sequences of handshake attempts on one server: a faulted first attempt (every datagram of
+// the handshake, of either party: socket write error / lost), then a retry - same or other address, same or other
+// identity, immediately / later within / after the server's handshake timeout - optionally faulted too and retried again.
+func TestVerifC02Retry(t *testing.T) {
+	run := c02RetryRun(t)
+	if vlib.ReplayEnumerated(t, "C02", run) {
+		return
+	}
+	rec := vlib.Open(t, "C02")
+	idx := 0
+	emit := func(c c02RetryCase) bool {
+		idx++
+		if !rec.Mine(idx) {
+			return true
+		}
+		return vlib.Each(t, rec, c, run)
+	}
+	delays := []int{0, 2500, 6000}
+	for _, hidden := range []bool{false, true} {
+		if !emit(c02RetryCase{Hidden: hidden, Attempts: []c02Attempt{{}}}) {
+			return
+		}
+		fs := c02Faults(hidden)
+		for _, f1 := range fs {
+			first := c02Attempt{Fault: f1}
+			for addr := 0; addr < 2; addr++ {
+				for _, d := range delays {
+					for _, second := range []bool{false, true} {
+						if !emit(c02RetryCase{Hidden: hidden, Attempts: []c02Attempt{first, {Addr: addr, Second: second, DelayMs: d}}}) {
+							return
+						}
+					}
+					if d == 2500 {
+						continue
+					}
+					for _, f2 := range fs {
+						for addr3 := 0; addr3 < 2; addr3++ {
+							for _, d3 := range delays {
+								if !emit(c02RetryCase{Hidden: hidden, Attempts: []c02Attempt{first, {Fault: f2, Addr: addr, DelayMs: d}, {Addr: addr3, DelayMs: d3}}}) {
+									return
+								}
+							}
+						}
+					}
+				}
+			}
+		}
+	}
+	rec.SetExhaustive(true)
+	rec.Extra("enumerated", "sequences of 2 and 3 handshake attempts on one server: every single-datagram send fault (write error / loss, either party, both modes) in the first and optionally the second attempt x retry address (same / other) x identity x pause (0 / 2.5 s / 6 s against a 5 s server handshake timeout)")
 }
